@@ -31,3 +31,8 @@ def spec_same_text(a, b):
 def uf_defined_by(ast, node) -> 'ASTD':
     """`ast` with the names node defines pre-bound to None / [] (docs/ast.rst)"""
     raise NotImplementedError
+
+
+def spec_option_body(o):
+    """Choice._parse unwraps Option nodes"""
+    return o.exp if isinstance(o, Option) else o
